@@ -47,6 +47,7 @@ def collision_tree(seed, k):
     over 7 consecutive k."""
     spec, feats = campaign.make_spec(seed, 5000 + k, awkward_names=False, allow_empty=False)
     taken = {n.lower() for n in spec.types()}
+    placed = []
     for i, name in enumerate(COLLIDING):
         path = PATHS[(k + i) % len(PATHS)]
         if name.lower() in FORBIDDEN.get(path, ()) or name.lower() in taken:
@@ -55,6 +56,10 @@ def collision_tree(seed, k):
             spec.files[path].enums.append(S.Enum(name, "char", [("A", 1, None), ("B", 2, None)]))
         else:
             spec.files[path].structs.append(S.Struct(name, [S.Field("x", "char")]))
+        placed.append(name)
+    # somebody refers to every one of them (import statements for them are generated), from the last
+    # directory the generator visits in a layered tree
+    spec.files["net/server"].structs.append(S.Struct("UsesAwkward%d" % k, [S.Field("f%d" % j, n) for j, n in enumerate(placed)]))
     return spec
 
 
@@ -84,6 +89,14 @@ def run(shard, rec, tier, seed):
     if ti >= 1000:
         spec = collision_tree(seed, ti - 1000)
         rec.count("collision-trees")
+        # the previous collision tree (same names, other directories) goes through the generator first in
+        # this very process: nothing of it may survive into the tree under test
+        prev = collision_tree(seed, ti - 1000 + 1)
+        if not grammar.check(prev):
+            st0, ok0, _e, _o = stage.full(S.render(prev), do_import=False)
+            if st0 is not None:
+                st0.close()
+            rec.count("trees-generated-before-in-same-process")
     else:
         spec, feats = campaign.make_spec(seed, ti, awkward_names=True, allow_empty=False)
     if grammar.check(spec):
